@@ -40,12 +40,25 @@ static char *slurp(const char *path, long *len)
 # S = scanner handle argument ("" or ", s"), S1 = "s" or ""
 MAIN = r"""
 #define MAXB 64
+static %(BT)s h[MAXB];
+static int stack[256]; static int sp = 0;          /* the driver's own idea of the buffer stack, to label tokens */
+static int g_autopop;
+/* include-style yywrap(): while a buffer lies below the exhausted one, pop and go on */
+int yywrap(%(WARG)s)
+{
+    if (g_autopop && sp > 1 && stack[sp - 1] >= 0 && stack[sp - 2] >= 0) {
+        h[stack[sp - 1]] = 0; sp--;
+        yypop_buffer_state(%(S1)s);
+        g_cur = stack[sp - 1];
+        return 0;
+    }
+    return 1;
+}
 int main(int argc, char **argv)
 {
     FILE *ops = fopen(argv[1], "r");
-    %(BT)s h[MAXB]; char *mem[MAXB]; FILE *fh[MAXB];
+    char *mem[MAXB]; FILE *fh[MAXB];
     char op[8], path[512]; int id, k, i, v;
-    int stack[256]; int sp = 0;          /* the driver's own idea of the buffer stack, to label tokens */
     %(decl)s
     memset(h, 0, sizeof h); memset(mem, 0, sizeof mem); memset(fh, 0, sizeof fh);
     if (!ops) return 2;
@@ -73,7 +86,7 @@ int main(int argc, char **argv)
             sp = 0; %(destroy)s
             for (i = 0; i < MAXB; i++) { if (mem[i]) free(mem[i]); mem[i] = 0; if (fh[i]) fclose(fh[i]); fh[i] = 0; }
             printf("X\n"); }
-        else if (op[0] == 'L') { fscanf(ops, "%%d", &k);
+        else if (op[0] == 'L' || op[0] == 'K') { fscanf(ops, "%%d", &k); g_autopop = (op[0] == 'K');
             for (i = 0; i < k; i++) { g_cur = sp > 0 ? stack[sp - 1] : -1; v = yylex(%(S1)s); if (v == 0) { printf("Z %%d\n", g_cur); break; } } }
     }
     for (i = 0; i < MAXB; i++) { int j, onstack = 0; for (j = 0; j < sp; j++) if (stack[j] == i) onstack = 1;
@@ -91,7 +104,7 @@ int main(int argc, char **argv)
 def make_spec(prog, rng, backend, lineno, alloc="", extra_options=None, fini_extra=""):
     defs = {}
     nrules = len(prog['rules'])
-    opts = ["noyywrap", "nounput", "noinput"] + backends.BACKENDS[backend]['options'] + list(extra_options or [])
+    opts = ["nounput", "noinput"] + backends.BACKENDS[backend]['options'] + list(extra_options or [])
     if lineno:
         opts.append("yylineno")
     if prog.get('caseins'):
@@ -131,7 +144,7 @@ def make_spec(prog, rng, backend, lineno, alloc="", extra_options=None, fini_ext
         out.append("<*>.|\\n\t{ %s; return 1; }" % (tokm % (nrules + 1)))
     out.append("%%")
     out.append(EV + MAIN % {'S': S, 'S1': S1, 'decl': decl, 'init': init, 'fini': fini + fini_extra,
-                            'BT': 'yybuffer' if backend == 'c99' else 'YY_BUFFER_STATE',
+                            'BT': 'yybuffer' if backend == 'c99' else 'YY_BUFFER_STATE', 'WARG': 'void' if backend == 'nr' else 'yyscan_t s',
                             'destroy': ('yylex_destroy(); yyin = fopen("/dev/null", "rb");' if backend == 'nr' else
                                         'yylex_destroy(s); if (yylex_init(&s)) return 3; yyset_in(fopen("/dev/null", "rb"), s);')})
     return "\n".join(out) + "\n"
@@ -174,6 +187,11 @@ def gen_history(rng, prog, length, deep=False):
                 choices += ['Dcur']
         if len([x for x in stack if x is not None]) >= 2 and cur is not None:
             choices += ['O'] * 2
+            if len(stack) >= (4 if deep else 2) and rng.chance(5):
+                # yylex with a yywrap() that pops: how many buffers it pops depends on the input, so the history ends with it
+                for n_ in [rng.pick([1, 2, 3, 5]), rng.pick([3, 8, 50]), 50, 50][:rng.rng(1, 4)]:
+                    ops.append(('K', n_))
+                break
         flushable = sorted(i for i in live if live[i] != 'smallfile')
         if flushable:
             choices += ['F']
@@ -245,7 +263,7 @@ def ops_text(ops, workdir):
             lines.append("%s %d %s" % (o[0], o[1], os.path.join(workdir, "f%d.bin" % o[2])))
         elif o[0] == 'N':
             lines.append("N %s" % os.path.join(workdir, "f%d.bin" % o[1]))
-        elif o[0] in ('W', 'P', 'F', 'D', 'L'):
+        elif o[0] in ('W', 'P', 'F', 'D', 'L', 'K'):
             lines.append("%s %d" % (o[0], o[1]))
         elif o[0] == 'X':
             lines.append("X")
@@ -273,6 +291,8 @@ def ops_sx(ops, files):
             out.append("(delete %d)" % o[1])
         elif o[0] == 'L':
             out.append("(lex %d)" % o[1])
+        elif o[0] == 'K':
+            out.append("(lexpop %d)" % o[1])
     return "(" + " ".join(out) + ")"
 
 
